@@ -331,6 +331,13 @@ func (d *c13pDrv) feed(bad bool) (*c13hViol, string) {
 		if v > d.hi.Load() {
 			d.hi.Store(v)
 		}
+		if d.min(v) > 1 {
+			// Generation-1 clients are answered from this version only once the ClientConf that goes
+			// with it has been republished (see mayLag). The flag must be up BEFORE the reload can
+			// read the file: the request loop judges a refusal by the flag as it was before and after
+			// its request, and the swap happens inside deliver.
+			d.s.mayLag.Store(true)
+		}
 	}
 	if h := d.deliver(w, content); h != "" {
 		return nil, h
@@ -340,15 +347,8 @@ func (d *c13pDrv) feed(bad bool) (*c13hViol, string) {
 		for dl := time.Now().Add(c13hLogWait); d.s.logs.count("failed to reload phantom subnets") == nErr && time.Now().Before(dl); {
 			time.Sleep(time.Millisecond)
 		}
-	} else {
-		if d.min(v) > 1 {
-			// generation-1 clients are answered from this version only once the ClientConf that goes
-			// with it has been republished (see mayLag)
-			d.s.mayLag.Store(true)
-		}
-		if v > d.lo.Load() || d.s.mayEmpty.Load() || d.s.mayLag.Load() {
-			return d.served(v)
-		}
+	} else if v > d.lo.Load() || d.s.mayEmpty.Load() || d.s.mayLag.Load() {
+		return d.served(v)
 	}
 	return nil, ""
 }
@@ -358,7 +358,7 @@ func (d *c13pDrv) feed(bad bool) (*c13hViol, string) {
 // replaced publishes the old one, and only the reload after it puts things right.
 func (d *c13pDrv) served(v int64) (*c13hViol, string) {
 	start := time.Now()
-	for {
+	for polls := 0; ; polls++ {
 		if ok, h := d.probe(); h != "" {
 			return nil, h
 		} else if ok {
@@ -397,7 +397,9 @@ func (d *c13pDrv) served(v int64) (*c13hViol, string) {
 		if d.lo.Load() >= v && !d.s.mayEmpty.Load() && !d.s.mayLag.Load() {
 			return nil, ""
 		}
-		if time.Since(start) > c13pPatience {
+		// patience is time AND work: the registrar must have answered a thousand registrations of
+		// this loop meanwhile, so a machine too busy to run it never produces a verdict
+		if time.Since(start) > c13pPatience && polls >= 1000 {
 			if set == c13hRefused && d.s.mayLag.Load() {
 				// clients of the newest generation tell whether the subnets were reloaded
 				if cs, ck, _ := d.s.registerGen("dual", d.gen(v)); ck == "" && cs >= v {
